@@ -445,6 +445,12 @@ def build_deeponet(case, world, trace, tag=None):
         trace.add("fs_call", tag=tag, name=name, kw=_clone_kw(kw))
     fs = tp.domains.CustomFunctionSet(fspace, ks, D.data_fn_torch(don["fs"], on_call))
     disc = tp.samplers.GridSampler(fdom, n_points=don["disc_n"]).make_static()
+    # grids are topped up with random points: fix the static discretisation now, as a function of the model spec only (a
+    # DeepONet shared by several conditions must not depend on which of them evaluates first)
+    _rng_state = torch.get_rng_state()
+    torch.manual_seed(int(case["model"]["seed"]) % (2 ** 31))
+    disc.sample_points()
+    torch.set_rng_state(_rng_state)
     mspec = case["model"]
     g = torch.Generator().manual_seed(int(mspec["seed"]))
     trunk = tp.models.FCTrunkNet(D.space_of(vars_, mspec["in_order"]), hidden=tuple(mspec["hidden"]))
